@@ -2,6 +2,7 @@
 package main
 
 import (
+	"encoding/json"
 	"flag"
 	"fmt"
 	"os"
@@ -36,6 +37,7 @@ func main() {
 	disk := fs.Uint64("disk", 20000, "disk size in blocks")
 	dumpEach := fs.Int("dumpeach", 50, "dump every n steps")
 	prop := fs.String("prop", "", "probes: property filter")
+	specFile := fs.String("spec", "", "lockconfirm: experiment description")
 	part := fs.Int("part", 0, "windows: which slice of the experiment matrix")
 	parts := fs.Int("parts", 1, "windows: number of slices")
 	clients := fs.Int("clients", 3, "conc: client goroutines")
@@ -161,6 +163,40 @@ func main() {
 			panic(err)
 		}
 		drv.RunWindows(*seed, *part, *parts, t, 0)
+		t.Close()
+		fmt.Printf("events=%d\n", t.N)
+	case "lockprogs":
+		t, err := drv.NewTrace(*out)
+		if err != nil {
+			panic(err)
+		}
+		drv.RunLockProgs(*seed, *part, *nseg, *steps, t)
+		t.Close()
+		fmt.Printf("events=%d\n", t.N)
+	case "lockconfirm":
+		// -spec file: {"seed":..,"group":..,"warm1":..,"c1":{call},"c2":{call},"n1":..,"n2":..}
+		b, err := os.ReadFile(*specFile)
+		if err != nil {
+			panic(err)
+		}
+		var sp struct {
+			Seed, Group, N1, N2 int
+			Warm                bool
+			C1, C2              *drv.Call
+		}
+		if err := json.Unmarshal(b, &sp); err != nil {
+			panic(err)
+		}
+		ok, info := drv.ConfirmDeadlock(sp.Seed, sp.Group, sp.Warm, sp.C1, sp.C2, sp.N1, sp.N2)
+		fmt.Printf("CONFIRMED=%v %s\n", ok, info)
+	case "argsweep":
+		t, err := drv.NewTrace(*out)
+		if err != nil {
+			panic(err)
+		}
+		for i := 0; i < *nseg; i++ {
+			drv.RunArgSweep(*seed*1000+i, *steps, avoidSet(*avoid), t, i)
+		}
 		t.Close()
 		fmt.Printf("events=%d\n", t.N)
 	case "probes":
